@@ -189,8 +189,8 @@ func (r *runner) run(raw json.RawMessage) json.RawMessage {
 		code = ee.ExitCode()
 	}
 	stderr := r.errb.String()
-	if len(stderr) > 2000 {
-		stderr = stderr[:2000]
+	if len(stderr) > 6000 { // keep the head and the tail: the cause of a failure follows the (possibly very long) name it quotes
+		stderr = stderr[:3000] + " ... " + stderr[len(stderr)-3000:]
 	}
 	r.cmd = nil
 	if od, ok := r.eng.(interface {
